@@ -21,7 +21,8 @@ SPEC = {
     "C17": ["samply/src/import/perf.rs", "samply/src/linux_shared/processes.rs", "samply/src/linux_shared/process_threads.rs", "samply/src/linux_shared/thread.rs",
             "samply/src/linux_shared/converter.rs::handle_fork,handle_exit,handle_comm,handle_exec,handle_thread_rename",
             "samply/src/linux_shared/process.rs::notify_dead,finish,rename_without_recycling,recycle_or_get_new_thread"],
-    "C02": ["samply/src/shared/lib_mappings.rs", "samply/src/shared/process_sample_data.rs", "samply/src/shared/stack_converter.rs",
+    # shared/lib_mappings.rs (op queue, apply_to, process_ops) and linux_shared/svma_file_range.rs (bias) are translated on every run (tools/xlate_ho.py, xlate_vb.py)
+    "C02": ["samply/src/shared/process_sample_data.rs", "samply/src/shared/stack_converter.rs",
             "samply/src/linux_shared/converter.rs::handle_fork,handle_comm,get_sample_stack,compute_base_avma,add_module_to_process",
             "samply/src/shared/unresolved_samples.rs", "fxprof-processed-profile/src/library_info.rs", "fxprof-processed-profile/src/global_lib_table.rs"],
     "C03": ["fxprof-processed-profile/src/frame_table.rs", "fxprof-processed-profile/src/func_table.rs", "fxprof-processed-profile/src/stack_table.rs",
@@ -30,7 +31,8 @@ SPEC = {
             "fxprof-processed-profile/src/profile.rs::sorted_threads,add_marker,set_marker_stack,handle_for_stack,handle_for_native_symbol,handle_for_category,handle_for_subcategory,"
             "handle_for_frame_with_label_internal,handle_for_frame_with_address_internal,handle_for_frame_with_address_and_symbol_internal,add_process,add_thread,make_unique_pid_or_tid,"
             "handle_for_stack_frames,add_allocation_sample", "fxprof-processed-profile/src/process.rs", "fxprof-processed-profile/src/thread.rs", "fxprof-processed-profile/src/frame.rs"],
-    "C04": ["fxprof-processed-profile/src/sample_table.rs", "fxprof-processed-profile/src/counters.rs", "fxprof-processed-profile/src/cpu_delta.rs",
+    # sample_table.rs: new / add_sample / modify_last_sample are translated on every run (tools/xlate_st.py); the Serialize impl is transcribed and stays pinned
+    "C04": ["fxprof-processed-profile/src/sample_table.rs::serialize", "fxprof-processed-profile/src/counters.rs", "fxprof-processed-profile/src/cpu_delta.rs",
             "fxprof-processed-profile/src/thread.rs::add_sample,add_sample_same_stack_zero_cpu", "fxprof-processed-profile/src/profile.rs::add_sample,add_sample_same_stack_zero_cpu,add_counter_sample"],
     "C05": ["samply-symbols/src/symbol_map_object.rs::new,lookup_relative_address,lookup_sync,file_offset_to_svma,name", "samply-symbols/src/jitdump.rs::lookup_sync,lookup_relative_address",
             "samply-symbols/src/breakpad/symbol_map.rs::lookup_sync", "samply-symbols/src/symbol_map.rs"],
